@@ -97,6 +97,14 @@ def model_check(ck: Check):
                    ps=(0, 1, 2, 8), seeds=(1,), grid=(4,), injects=(False,), mode="const", maxcalls=1),
                workers=4 if not ck.thorough else 8, timeout=1200)
     require(r, ("DoBegin", "DoRefuse", "EarlyReject", "DoSample", "DoSampleFail", "DoFinish", "Raise"), "instance model")
+    # (2a') the count rules at n just below / at / above every level boundary, in dimensions 2..13 (unit spaces),
+    #       large n included (n around 224^2, 33^3, 2^13): integer root by search, maximality, count <= n
+    r = ck.tlc("DOEPipeline",
+               cfg(space=tuple(range(101, 114)), insts=(1,), apis=("compute",),
+                   fams=("fullfact", "axial", "factorial", "composite", "morris"), ns=boundary_n_values(ck.thorough),
+                   seeds=(1,), grid=(4,), injects=(False,), mode="const", maxcalls=1),
+               workers=4 if not ck.thorough else 8, timeout=1200)
+    require(r, ("DoBegin", "DoSample", "DoSampleFail", "DoFinish", "Raise"), "boundary instance model")
     # (2b) every unit grid point of every component of every space of the catalogue: image within bounds,
     #      integral, rounding (ties both ways), flag dependence
     for spaces, mode in (((1, 2, 3, 4), "all"), ((5, 6), "const")):
@@ -157,6 +165,57 @@ def probe(seed):
             (1, "compute", False, 0, False)]
 
 
+# ---- n just below / at / above a level boundary of the count rules (n = base - 1, base, base + 1)
+def fullfact_cases(thorough):
+    """(d, k): n around k^d, including large ones where a floating-point d-th root is fragile."""
+    cases = [(2, 3), (2, 10), (2, 100), (2, 224), (3, 2), (3, 10), (3, 33)] + [(d, 2) for d in range(4, 14)]
+    if thorough:
+        cases += [(4, 13), (5, 8), (7, 4), (9, 3), (2, 317), (3, 46), (6, 5)]
+    return cases
+
+
+LEVEL_BASE = {          # algorithm -> base(L, d): the smallest n giving L levels / replicates
+    "OT_AXIAL": lambda L, d: 1 + 2 * d * L,
+    "OT_FACTORIAL": lambda L, d: 1 + 2 ** d * L,
+    "OT_COMPOSITE": lambda L, d: 1 + L * (2 * d + 2 ** d),
+    "MorrisDOE": lambda L, d: L * (d + 1),
+}
+
+
+def boundary_n_values(thorough):
+    ns = set()
+    for d, k in fullfact_cases(thorough):
+        ns |= {k ** d - 1, k ** d, k ** d + 1}
+    for base in LEVEL_BASE.values():
+        for d in range(1, 5):
+            for L in ((1, 2, 3, 5, 8) if thorough else (1, 2)):
+                ns |= {base(L, d) - 1, base(L, d), base(L, d) + 1}
+    return tuple(sorted(n for n in ns if n >= 1))
+
+
+def boundary_scenarios(ck: Check, first_id):
+    out = []
+    sid = first_id
+    for a in ("PYDOE_FULLFACT", "OT_FULLFACT"):
+        for d, k in fullfact_cases(ck.thorough):
+            for n in (k ** d - 1, k ** d, k ** d + 1):
+                sid += 1
+                out.append({"id": sid, "algo": a, "space": f"unit{d}", "comps": [(0.0, 1.0, False)] * d, "flag0": False,
+                            "n": n, "variant": 0, "history": [(1, "compute", False, 0, False)], "boundary": True})
+    dims = {1: "d1f", 2: "d2m", 3: "d3f", 4: "d4m"}
+    for a, base in LEVEL_BASE.items():
+        for d, sname in dims.items():
+            for L in ((1, 2, 3, 5, 8) if ck.thorough else (1, 2)):
+                for n in (base(L, d) - 1, base(L, d), base(L, d) + 1):
+                    if n < 1:
+                        continue
+                    sid += 1
+                    out.append({"id": sid, "algo": a, "space": sname, "comps": SPACES[sname], "flag0": (sid % 2 == 0),
+                                "n": n, "variant": 0, "boundary": True,
+                                "history": [(1, "compute", False, 0, False), (2, "execute", True, 2, False)]})
+    return out
+
+
 def scenarios(ck: Check, rng, hs):
     from gemseo.algos.doe.factory import DOELibraryFactory
 
@@ -202,6 +261,9 @@ def run(ck: Check):
     hs = histories(ck, 3 if ck.thorough else 2)
     rng.shuffle(hs)
     scs = scenarios(ck, rng, hs)
+    bnd = boundary_scenarios(ck, len(scs))
+    ck.extra["boundary_scenarios"] = len(bnd)
+    scs += bnd
     t0 = time.time()
     traces = []
     meta = {}
